@@ -1,8 +1,8 @@
 SPECIFICATION Spec
 CONSTANTS
-  MaxG = 26
-  Dpbs = {16, 32}
-  ResizeSet = {1, 2, 3, 4, 8, 10, 26}
+  MaxG = 18
+  Dpbs = {4, 8}
+  ResizeSet = {1, 2, 3, 10, 18}
   MaxSteps = 2
   DevTuneMasterOnly = FALSE
   DevFsckIgnoresFeatDiff = FALSE
